@@ -270,15 +270,20 @@ func (c Codec) RefDecode(buf []byte, unlimited bool) Step {
 
 // Fragmenter serves a byte stream in scripted read sizes.
 type Fragmenter struct {
-	Data    []byte
-	Cuts    []int  // successive maximum read sizes (>=1); the last one repeats
-	End     string // "eof" | "err" | "eofdata" (last bytes returned together with io.EOF)
-	pos     int
-	cut     int // index into Cuts
-	left    int // remaining bytes of the current cut
-	Pulled  int // total bytes handed out
-	EndHits int // number of Read calls answered with the terminal error
-	Reads   int
+	Data []byte
+	Cuts []int  // successive maximum read sizes (>=1); the last one repeats
+	End  string // "eof" | "err" | "eofdata" (last bytes returned together with io.EOF)
+	// Zero > 0: every Zero-th Read call returns (0, nil) before anything else (io.Reader allows an empty read; an
+	// empty TLS record or a wrapping transport produces them), never twice in a row
+	Zero      int
+	lastZero  bool
+	ZeroReads int
+	pos       int
+	cut       int // index into Cuts
+	left      int // remaining bytes of the current cut
+	Pulled    int // total bytes handed out
+	EndHits   int // number of Read calls answered with the terminal error
+	Reads     int
 }
 
 // ErrStream is the non-EOF terminal error of a Fragmenter.
@@ -289,6 +294,12 @@ func (f *Fragmenter) Read(p []byte) (int, error) {
 	if len(p) == 0 {
 		return 0, nil
 	}
+	if f.Zero > 0 && f.Reads%f.Zero == 0 && !f.lastZero {
+		f.lastZero = true
+		f.ZeroReads++
+		return 0, nil
+	}
+	f.lastZero = false
 	if f.pos >= len(f.Data) {
 		f.EndHits++
 		if f.End == "err" {
